@@ -44,7 +44,17 @@ class BitcoinSolutionChecker(SegwitChecker, P2SChecker):
         must appear in the main script aligned to opcode boundaries for it
         to be removed.
         """
-        subscript = self.ScriptTools.compile_push_data_list([sig_blob])
+        # the pattern is the plain push of the blob (length prefix, no OP_n / OP_1NEGATE short forms)
+        size = len(sig_blob)
+        if size < 76:
+            prefix = bytes([size])
+        elif size <= 0xFF:
+            prefix = b"\x4c" + bytes([size])
+        elif size <= 0xFFFF:
+            prefix = b"\x4d" + size.to_bytes(2, "little")
+        else:
+            prefix = b"\x4e" + size.to_bytes(4, "little")
+        subscript = prefix + sig_blob
         new_script = bytearray()
         pc = 0
         for opcode, data, pc, new_pc in self.ScriptTools.get_opcodes(script):
